@@ -65,6 +65,7 @@ OPS = [
     ("markup2", {"markup": "<p><i>Foo v. Bar</i>, 1 U.S. 1 (1999). In <i>Bar</i> we held.</p>", "steps": ["html"]}),
     ("t4", {"text": "Adarand v. Pena, 515 U.S. ___ (1995). Adarand, 515 U.S., at ___. See 1 F.2d at ___."}),
     # 'html' not first in the caller's list (the list object itself must come back untouched)
+    ("names", {"text": "In Johnson v. Texas, 410 U.S. 113, 115 (1973), and State v. Holder, 2 F.2d 2 (1999). Johnson at 120; Texas at 7; Holder at 9; State at 5."}),
     ("other1", {"text": "Foo v. Bar, 1 U.S. 1 (1999). 1 T.C. at 15.", "other_tokenizer": "noshort"}),
     ("tc", {"text": "See 1 T.C. at 15; 1 Hughes (1877) 12; 1 H. 1."}),
     ("markup3", {"markup": "<p><i>Foo v. Bar</i>, 1 U.S. 1 (1999). In <i>Bar</i> we held.</p>", "steps": ["inline_whitespace", "html", "all_whitespace"]}),
